@@ -388,22 +388,33 @@ def risesFrom : Nat → List Nat → List Nat
   | k, a :: b :: t => if a < b then k :: risesFrom (k + 1) (b :: t) else risesFrom (k + 1) (b :: t)
   | _, _ => []
 
+/-- the segment start closest to `e` (first one on ties): `segments[np.abs(e - segments).argmin()]` -/
+def nearest (segments : List Nat) (e : Nat) : Nat :=
+  segments.getD (argminFirst (segments.map (absDiff e))) 0
+
 /-- `CategoricalData.align(segments)` -/
-def Cat.align (c : Cat V) (segments : List Nat) : Except Err (Cat V) := do
-  if segments = [] then throw Err.value
-  -- each event moves onto the closest segment start (first one on ties)
-  let moved := c.ev.map (fun e => segments.getD (argminFirst (segments.map (absDiff e))) 0)
+def Cat.align (c : Cat V) (segments : List Nat) : Except Err (Cat V) :=
+  -- argmin of an empty sequence
+  if segments = [] then .error .value else
+  -- each event moves onto the closest segment start
+  let moved := c.ev.map (nearest segments)
+  -- when several events land on the same start only the final one is kept
   let final := risesFrom 0 moved
-  let sel ← takeIdx c.idx final
-  -- subset, indices = np.unique(indices[final], return_inverse=True)
-  if sel.any (fun i => decide (c.uniq.length ≤ i)) then throw Err.index
-  let subset := (List.range c.uniq.length).filter (fun i => sel.contains i)
-  let uniq' ← takeIdx c.uniq subset
-  let evs ← takeIdx moved final
-  match moved.getLast? with
-  | none => throw Err.index
-  | some last =>
-    pure { uniq := uniq', idx := sel.map (fun i => subset.idxOf i), ev := evs ++ [last] }
+  match takeIdx c.idx final with
+  | .error e => .error e
+  | .ok sel =>
+    -- subset, indices = np.unique(indices[final], return_inverse=True)
+    if sel.any (fun i => decide (c.uniq.length ≤ i)) then .error .index else
+    let subset := (List.range c.uniq.length).filter (fun i => sel.contains i)
+    match takeIdx c.uniq subset with
+    | .error e => .error e
+    | .ok uniq' =>
+      match takeIdx moved final with
+      | .error e => .error e
+      | .ok evs =>
+        match moved.getLast? with
+        | none => .error .index
+        | some last => .ok { uniq := uniq', idx := sel.map (fun i => subset.idxOf i), ev := evs ++ [last] }
 
 /-- `CategoricalData.partition(segments)`: one container per segment, sharing `unique_values` -/
 def Cat.partition (c : Cat V) (segments : List Nat) : Except Err (List (Cat V)) := do
